@@ -144,6 +144,20 @@ def snippet(c):
             "print([cx.rotate_pairtable_loc((i, 0), 1) for i in range(cx.size)])\n")
 
 
+def history_witnesses(diffs):
+    """disagreements of view histories (query, turns assignment, query): the direct statement of the property on the
+    implementation is that every view equals that of a fresh complex at the same rotation"""
+    from common import run_impl, Err
+    hreqs = [d[1] for d in diffs if d[1][0] == "c03_history"][:20]
+    out = []
+    if hreqs:
+        for rq, r in zip(hreqs, run_impl([("c03_fresh_compare", q[1]) for q in hreqs])):
+            if isinstance(r, Err) or r:
+                out.append({"key": {"seq": rq[1][0], "struct": "".join(rq[1][1]), "ops": rq[1][2]}, "input": {"history": rq[1]},
+                            "what": str(r), "snippet": f"# harness op c03_fresh_compare {rq[1]!r} (harness/impl/views.py)"})
+    return out
+
+
 def run(ctx):
     res = prove(ctx)
     runner = ensure_model_runner()
@@ -180,6 +194,7 @@ def run(ctx):
     ctx.cov["partial"] = partial_statements()
 
     def search(diffs):
+        pre = history_witnesses(diffs)
         cases = []
         for c in diff_cases[:4]:
             def bad(c2):
@@ -198,7 +213,7 @@ def run(ctx):
             c = {"seq": f["seq"], "sst": f["sst"]}
             found.append({"key": {"sst": f["sst"], "seq": f["seq"]}, "input": c, "what": f["what"],
                           "snippet": snippet(c)})
-        return found
+        return pre + found
 
     conclude(ctx, res, runner, diffs, search)
 
@@ -208,6 +223,11 @@ def replay(data):
     if not inp:
         print("replay file names a broken proof/correspondence link only:", json.dumps(data.get("broken_links"))[:2000])
         return 1
+    if isinstance(inp, dict) and "history" in inp:
+        from common import run_impl
+        r = run_impl([("c03_fresh_compare", inp["history"])])[0]
+        print(r)
+        return 1 if r else 0
     out = run_oracle("c07.py", {"cases": [inp]})
     print(json.dumps(out))
     return 1 if out["failures"] else 0
